@@ -119,6 +119,7 @@ type NodeOpts struct {
 	// ViaProvider: construct through services.CreateServiceProviderWithCfg first (real start-up
 	// sequence, real durable effects), then wire decorated services on the State it opened.
 	ViaProvider bool
+	CommSeed    uint64
 }
 
 // WireHot (re)builds the hot node services on top of st/board, exactly in the order
@@ -192,7 +193,11 @@ func OpenCold(dir, mnemonic, password string) (*airgapped.Machine, error) {
 
 // NewNode builds participant idx with deterministic keys.
 func NewNode(idx int, name string, seed uint64, board Board, opt NodeOpts) (*Node, error) {
-	r := sched.Derive(seed, 0xA11CE, uint64(idx))
+	cs := seed
+	if opt.CommSeed != 0 {
+		cs = opt.CommSeed
+	}
+	r := sched.Derive(cs, 0xA11CE, uint64(idx))
 	pub, priv, err := ed25519.GenerateKey(r)
 	if err != nil {
 		return nil, err
